@@ -95,6 +95,31 @@ def check_content_interval_hull(ctx, rule="FIN-hull"):
 # ORD-docorder: in-order accumulation
 # ---------------------------------------------------------------------------------------
 
+def check_collects_in_document_order(ctx, f: FuncInfo, rule="ORD-docorder"):
+  """A collector of paragraphs, interpreted (rules/minieval.py) on a sample tree with paragraphs at three nesting depths between
+  and after nested divs: it returns every paragraph once, in document order - whether it recurses, keeps a stack, or concatenates.
+  Returns False when the collector leaves the interpreted subset (the structural rule then decides)."""
+  from ..consteval import NotConst, Raised
+  from .minieval import MiniEval, Node
+  p = [Node("P", f"p{i}") for i in range(6)]
+  tree = Node("Div", "d0", [p[0], Node("Div", "d1", [p[1], Node("Div", "d2", [p[2]]), Node("Div", "d3", []), p[3]]), p[4], Node("Div", "d4", [p[5]])])
+  me = MiniEval(ctx.ix)
+  try:
+    from ..consteval import Sym as _Sym
+    args = [tree] if f.cls is None or f.is_static else [_Sym("self"), tree]
+    got = me.call(f, args)
+  except NotConst:
+    return False
+  except Raised:
+    got = "raises"
+  ctx.unit(f.module)
+  want = [x.name for x in p]
+  names = [getattr(x, "name", repr(x)) for x in got] if isinstance(got, list) else got
+  ctx.check(names == want, rule, f"{f.qualname}|every paragraph once, in document order (sample tree)", ctx.where(f.module, f.node), f"interpreted on a sample tree: {names}",
+            f"interpreted on a sample tree with paragraphs p0..p5 at three nesting depths, {f.short} returns {names}: paragraphs are lost, repeated or out of document order")
+  return True
+
+
 def check_inorder_accumulation(ctx, f: FuncInfo, acc: str, source: str, rule="ORD-docorder"):
   """All updates of accumulator `acc` happen inside ONE loop that iterates `source` in its
   natural order, and concatenations keep `acc` on the left (append / += / acc = acc + x)."""
